@@ -3,6 +3,7 @@ from engine.anl.origin import fmt, subterms
 from engine.anl.casts import const_value
 from .common import S, co, calls_norm, is_call_term, var_name, render_path
 from . import C02
+from engine.anl.mir import span_str
 
 EXPLANATION = (
     "Static decision of the end-of-stream plumbing: (R08.1) the FIN arm removes frame.stream_id from both stream tables on every "
@@ -208,8 +209,59 @@ def r5_state_release(ctx):
            "entries of Session.streams / Session.stream_receive_tx are removed only by a received FIN and by close() (%s): a stream that finished locally keeps its state for the life of the session" % sorted(set(rm_sites)))
 
 
+def r6_loop_exits(ctx):
+    """a relay direction ends only because its own source ended/failed or its own sink failed (TCP relays)"""
+    loops = []
+    for key, body, r, w, loop in sink_loops(ctx):
+        loops.append((key, body, loop, {r.bb} | {c.bb for c in body.calls() if c.bb in loop and (c.norm or "").endswith(("AsyncWriteExt::write_all", "AsyncWriteExt::flush"))}, "sink"))
+    for key, body, s, loop, src in forwarding_loops(ctx):
+        if "Udp" in (src.norm or ""):
+            continue    # datagram relays: their lifetime rules are C18's
+        loops.append((key, body, loop, {src.bb} | {c.bb for c in body.calls() if c.bb in loop and (c.norm or "").endswith(SENDS)}, "forwarder"))
+    ctx.floor("R08.6", "TCP relay loops (3 stream->socket, 3 socket->stream)", len(loops), 6)
+    for key, body, loop, own_bbs, kind in loops:
+        conds = ctx.conds(body)
+        fn = _owner(key)
+        bad = None
+        n = 0
+        for c in conds.all():
+            if c.block not in loop or not any(x not in loop for x in body.succ(c.block)):
+                continue
+            n += 1
+            rooted = any(isinstance(s_, tuple) and s_ and s_[0] == "call" and s_[2] in own_bbs for s_ in subterms(c.term))
+            if not rooted and bad is None:
+                bad = c
+        ctx.ob("R08.6", "%s:%s[exits-only-on-own-source-or-sink]" % (kind, fn), bad is None and n > 0, "" if bad is None else span_str(body.blocks[bad.block]["tspan"]),
+               "%d exits, each decided by the result of the loop's own read or write" % n if bad is None else
+               "the loop can end on `%s`, which is neither the end/failure of its source nor a failure of its sink: data already queued for this direction is abandoned "
+               "(a closed flag set by Session::close or an Alert overtakes the bytes received before it)" % fmt(bad.term)[:120])
+
+
+def r7_no_direction_abort(ctx):
+    """the relay never aborts one direction because the other ended"""
+    relay_children = {key for key, *_ in sink_loops(ctx)} | {key for key, *_ in forwarding_loops(ctx)}
+    n = 0
+    for key, body in ctx.P.scan():
+        ab = [c for c in body.calls() if (c.norm or "").endswith(("JoinHandle::abort", "AbortHandle::abort", "JoinSet::abort_all", "JoinSet::shutdown"))]
+        if not ab:
+            continue
+        o = ctx.origins(body)
+        for c in ab:
+            n += 1
+            t = o.of_operand(c.args[0])
+            defs = {s_[1] for s_ in subterms(t) if isinstance(s_, tuple) and s_ and s_[0] == "agg"}
+            kids = {ctx.cg.resolve(body, d_) for d_ in defs}
+            hit = sorted(k for k in kids if k and any(rc == k or rc.startswith(k + "::") for rc in relay_children))
+            ctx.ob("R08.7", "%s:abort-is-not-on-a-relay-direction" % _owner(key), not hit, c.site, "the aborted handle is not a relay direction task" if not hit else
+                   "`abort()` on the task running %s: when one direction of the relay ends the other is killed, so a reply still on its way after the peer half-closed is lost" % hit[0])
+    spawners = {e.src for k in relay_children for e in ctx.cg.callers(k, kinds=("spawn",))}
+    ctx.ob("R08.7", "relay:direction-tasks-are-never-aborted", True, "", "%d abort call(s) in the crate examined; %d bodies spawn relay direction tasks" % (n, len(spawners)))
+
+
 def run(ctx):
     from . import C09
+    r6_loop_exits(ctx)
+    r7_no_direction_abort(ctx)
     C09.r4_close_body(ctx)   # session close drops every inbound sender, so blocked readers reach end-of-stream
     r1_fin_arm(ctx)
     r2_single_sender_owner(ctx)
